@@ -25,6 +25,8 @@ CHECKS = {
          'order-convergence of operation routes + RNG-seam reference + purity fingerprints over seeded histories with RNG interference and restarts'),
  'C20': ('Seeded search over simulated sessions that repeat identical (and different) sphere-collection constructions from one call site, interleaved with other warnings, scoped catch_warnings blocks, Spheres.add mutations, queries and restarts: exactly the overlapping warn=True constructions must emit one OverlapWarning at every position of the history (process-global warning filters / once-per-location registries are the hidden state). Analytic containment, layer, index, CSG, translation, bounding-box, voxel-volume, overlap-pair and rejection checks are evaluated on the operations of the same histories.', '5 C20',
          'warning-state history simulation (persistent showwarning hook, no catch_warnings in the harness) + analytic reference model'),
+ 'C18': ('Seeded schedules of 2-4 producer tasks pushing frames (float32/float64/integer, constant frames, offsets up to 1e3 x spread, arrays and images) into one or two running accumulators in one session, with reads interleaved at arbitrary points: after every read the accumulator must equal the batch mean / population std of exactly the frames pushed so far (tolerance scaled by the data dtype and conditioning), two push orders of one multiset must agree, and pushes / reads must never modify a frame. The normalise / background / crop / dead-pixel / detrend / centre-finder identities and metadata retention are evaluated on shared image objects in the same histories.', '5 C18',
+         'streaming state machine vs batch reference model under seeded producer schedules + purity fingerprints'),
 }
 
 def main():
